@@ -127,10 +127,14 @@ def replayer(name, args, kwargs, meta):
             c = _expected_next(c) if c else None
             if c is None:
                 break
-        bad = err is not None or outs != exp[:len(outs)] or len(outs) < len(exp)
-        return bad, {"summary": "stored=%r date=%s: handed out %r err=%r, expected %r" % (
-            stored, KEYS[d], outs, err, exp), "stored": stored, "outs": outs, "error": err,
-            "expected": exp, "after": after}
+        exp_after = dict(stored)
+        exp_after[KEYS[d]] = c          # the requested date advanced once per allocation, others untouched
+        bad = err is not None or outs != exp[:len(outs)] or len(outs) < len(exp) or \
+            (c is not None and after != exp_after)
+        return bad, {"summary": "stored=%r date=%s: handed out %r err=%r, expected %r; next_ids.json afterwards %r, "
+                                "expected %r" % (stored, KEYS[d], outs, err, exp, after, exp_after),
+                     "stored": stored, "outs": outs, "error": err, "expected": exp, "after": after,
+                     "expected_after": exp_after}
     if name.startswith("is_zid_accepts"):
         zid = args[0] + "#" + args[1]
         # is_zid is only consulted for words the lexer produced; go through the compiler when the
